@@ -1,30 +1,49 @@
-import Logrange.Proofs.DateFirstMatch
-import Logrange.Generated.C20
+import Logrange.Props.C20Parts.OwnCol
+import Logrange.Props.C20Parts.OwnLql
+import Logrange.Props.C20Parts.IdxCol1
+import Logrange.Props.C20Parts.IdxCol2
+import Logrange.Props.C20Parts.IdxLql1
+import Logrange.Props.C20Parts.IdxLql2
+import Logrange.Props.C20Parts.IdxLql3
+import Logrange.Props.C20Parts.IdxLql4
 /-!
-# C20 — every format of both regenerated lists: round trip, own expression, first match
+# C20 — every format of both regenerated lists: round trip, own expression, first match — for every valid instant
 
 Part of the property theorems of C20 (same namespace as `Props/C20.lean`, which imports this file). Everything here is
-about the **regenerated** lists and terms; the `decide +kernel` theorems are evaluations by the Lean kernel.
+about the **regenerated** lists and terms. The kernel evaluations over the tables live in `Props/C20Parts/*` (one module
+per piece, built in parallel); the theorems below lift them to all instants.
 -/
 namespace Logrange.Props.C20
 open Logrange.Date Logrange.Generated
 
-def gterms : List Term := C20.terms
-def colFmts : List CFormat := C20.collectorFormats.map (compile gterms C20.regexpLeftGuard)
-def lqlFmts : List CFormat := C20.lqlFormats.map (compile gterms C20.regexpLeftGuard)
-def gadj : Adjust := { year := C20.formatParseAdjustsYear, date := C20.formatParseAdjustsDate }
-def gcfg : LqlCfg :=
-  { lower := C20.lqlLowerCases, trim := C20.lqlTrimsBlanks, fmtLower := C20.lqlLowerCases && C20.lqlFormatsSeeLowerCased, adj := gadj }
+/-! ## the repaired tree is pinned -/
 
-/-- all 127 entries of both lists -/
-def allFmts : List CFormat := colFmts ++ lqlFmts
+/-- `NewParser` wraps every format's expression in the left guard `(?:^|[^0-9])`: a date never starts inside a digit run
+(/repo 6279a73). A revert flips the regenerated fact and breaks this obligation (and the first-match certificates). -/
+theorem regexp_left_guard_present : C20.regexpLeftGuard = true := by decide
+
+/-- the AM/PM formats come before the 24-hour formats whose texts they extend, in both lists (/repo 6279a73):
+`D/M/YYYY hh:mm:ss P` before `DD/MM/YYYY HH:mm:ss`; `D/M/YYYY hh:mm P` and `D/M/YYYY h:mm P` before `DD/MM/YYYY HH:mm` -/
+theorem ampm_formats_come_first :
+    [C20.collectorFormats, C20.lqlFormats].all (fun l =>
+      l.idxOf [68, 47, 77, 47, 89, 89, 89, 89, 32, 104, 104, 58, 109, 109, 58, 115, 115, 32, 80] <
+        l.idxOf [68, 68, 47, 77, 77, 47, 89, 89, 89, 89, 32, 72, 72, 58, 109, 109, 58, 115, 115] &&
+      l.idxOf [68, 47, 77, 47, 89, 89, 89, 89, 32, 104, 104, 58, 109, 109, 32, 80] <
+        l.idxOf [68, 68, 47, 77, 77, 47, 89, 89, 89, 89, 32, 72, 72, 58, 109, 109] &&
+      l.idxOf [68, 47, 77, 47, 89, 89, 89, 89, 32, 104, 58, 109, 109, 32, 80] <
+        l.idxOf [68, 68, 47, 77, 77, 47, 89, 89, 89, 89, 32, 72, 72, 58, 109, 109] &&
+      l.idxOf [68, 68, 47, 77, 77, 47, 89, 89, 89, 89, 32, 72, 72, 58, 109, 109] < l.length) = true := by decide +kernel
 
 /-! ## (1) + (2): every format parses its own text back, and its own expression returns the whole text -/
 
-/-- for EVERY entry of both lists: the layout is well formed for the round trip (`ParseWF`: nothing that could follow an
-element in the text can be mistaken for part of it) and on every shape of the format's texts the first match of its own
-expression, in priority order, is the whole text (`ownMatchD`, the exact matcher on shapes). Kernel evaluation. -/
-theorem all_formats_own_ok : allFmts.all ownOK = true := by decide +kernel
+theorem all_formats_own_ok : allFmts.all ownOK = true := by
+  simp only [allFmts, List.all_append, Bool.and_eq_true]
+  refine ⟨col_formats_own_ok, ?_⟩
+  rw [List.all_eq_true]
+  intro cf hcf
+  have := List.all_eq_true.mp lql_formats_own_ok cf hcf
+  simp only [Bool.and_eq_true] at this
+  exact this.1
 
 /-- **`format_parse_fields` for every format of both lists and every layout element they use** (`Jan January Mon Monday 1 2 _2
 3 03 04 05 06 15 2006 PM .999999999 -0700 -07:00 MST`): the text of any valid instant (years 1000..2999, fraction of 3..9
@@ -54,132 +73,51 @@ theorem format_alone_correct (cf : CFormat) (hcf : cf ∈ allFmts) (i : XInst) (
   obtain ⟨r, hr, _, hf⟩ := own_regexp_whole (List.all_eq_true.mp all_formats_own_ok cf hcf) hi ht
   exact ⟨txt, c, ht, hc, formatParse_of_find hr hf hp⟩
 
-/-! ## (3): which formats are claimed by themselves — a verified checker instead of a sweep -/
+/-! ## (3) + (4): first match — the property for EVERY format of both lists -/
 
-/-- collector formats whose texts no earlier format's expression can match anywhere (shape abstraction, `findSG`). The list
-depends on the tree: with the repair F19s (left guard in `NewParser` + AM/PM formats before the 24-hour formats they
-extend: `regexpLeftGuard = true`) 43 of 59, before it 37 of 59. -/
-def cleanCollector : List Nat :=
-  if C20.regexpLeftGuard then
-    [0, 1, 2, 3, 4, 5, 6, 8, 9, 10, 11, 12, 13, 17, 19, 21, 22, 23, 25, 27, 28, 31, 33, 35, 36, 37, 38, 39, 40, 41, 42, 43,
-     44, 45, 46, 47, 48, 49, 50, 51, 52, 53, 54]
-  else
-    [0, 1, 2, 3, 4, 5, 6, 8, 9, 10, 11, 12, 17, 19, 22, 23, 25, 35, 36, 37, 38, 39, 40, 41, 42, 43, 44, 45, 46, 47, 48, 49,
-     50, 51, 52, 53, 54]
+theorem col_idx_ok (k : Nat) (hk : k < colFmts.length) : idxOK colFmts k = true := by
+  by_cases h : k < 42
+  · exact idxOK_of_range col_idx_ok_1 hk (Nat.zero_le _) h
+  · have hlen : colFmts.length < 100000 := by simp [colFmts]; decide
+    exact idxOK_of_range col_idx_ok_2 hk (by omega) (by omega)
 
-/-- the other collector formats: some earlier expression may match inside their text. On the repaired tree these are only
-(a) *twins* — the earlier format differs in digit widths and reads the same fields from the text (7 after 6, 14 15 16 after
-13, 18 after 17, 20 after 19, 24 after 23, 26 after 25, 29 30 after 28, 32 after 31, 34 after 33, 56 after 55, 58 after
-57) and (b) texts in which the unescaped `.` of `MM.DD.YYYY` / `MM.DD.YY` (53, 54) matches a `:` (55 56 57 58), whose layout
-then rejects the match: decided by the sweep. Before the repair the 11 formats of the 34 recorded shadowing classes
-(16 20 21 27 … 34) are here too. -/
-def unclearCollector : List Nat :=
-  if C20.regexpLeftGuard then [7, 14, 15, 16, 18, 20, 24, 26, 29, 30, 32, 34, 55, 56, 57, 58]
-  else [7, 13, 14, 15, 16, 18, 20, 21, 24, 26, 27, 28, 29, 30, 31, 32, 33, 34, 55, 56, 57, 58]
+theorem lql_idx_ok (k : Nat) (hk : k < lqlFmts.length) : idxOK lqlFmts k = true := by
+  have hlen : lqlFmts.length < 100000 := by simp [lqlFmts]; decide
+  by_cases h1 : k < 36
+  · exact idxOK_of_range lql_idx_ok_1 hk (Nat.zero_le _) h1
+  · by_cases h2 : k < 52
+    · exact idxOK_of_range lql_idx_ok_2 hk (by omega) h2
+    · by_cases h3 : k < 62
+      · exact idxOK_of_range lql_idx_ok_3 hk (by omega) h3
+      · exact idxOK_of_range lql_idx_ok_4 hk (by omega) (by omega)
 
-def cleanLql : List Nat :=
-  if C20.regexpLeftGuard then
-    [0, 1, 2, 3, 4, 5, 6, 8, 9, 10, 11, 12, 13, 17, 19, 21, 22, 23, 25, 27, 28, 31, 33, 35, 36, 37, 38, 39, 40, 41, 42, 43,
-     44, 45, 46, 47, 48, 49, 50, 51, 52, 53, 54, 61, 64, 67]
-  else
-    [0, 1, 2, 3, 4, 5, 6, 8, 9, 10, 11, 12, 17, 19, 22, 23, 25, 35, 36, 37, 38, 39, 40, 41, 42, 43, 44, 45, 46, 47, 48, 49,
-     50, 51, 52, 53, 54, 61, 64, 67]
+/-- **C20 for the collector list — every format, every valid instant, text alone.** The default parser, given the text of
+the instant in format `k`, answers with exactly the fields format `k` carries (UTC without a zone; the current or previous
+year for a year-less format; today's date for a time-only one). The claimant `j'` is format `k` itself or an earlier
+digit-width twin that reads the same fields (`DD/MM/YYYY…` claims the two-digit texts of `D/M/YYYY…`). No sweep, no
+sample: all instants of `ValidX`. A table edit that re-introduces a shadow breaks `col_idx_ok_*`. -/
+theorem C20_collector (k : Nat) (hk : k < colFmts.length) (i : XInst) (hi : ValidX i) (now : Now) :
+    ∃ ck txt c j', colFmts[k]? = some ck ∧ renderLayout ck.layout i = some txt ∧ projectX ck.layout i = .ok c ∧ j' ≤ k ∧
+      parseFirst gadj colFmts now txt = .ok j' (adjAll gadj ck now c) := by
+  have hck : colFmts[k]? = some colFmts[k] := List.getElem?_eq_getElem hk
+  have hmem : colFmts[k] ∈ allFmts := List.mem_append_left _ (List.getElem_mem hk)
+  have hown := List.all_eq_true.mp all_formats_own_ok _ hmem
+  obtain ⟨txt, c, j', ht, hc, hj, hpf⟩ := first_match_agree (adj := gadj) (now := now) hck (col_idx_ok k hk) hown i hi
+  exact ⟨_, txt, c, j', hck, ht, hc, hj, hpf⟩
 
-def unclearLql : List Nat :=
-  if C20.regexpLeftGuard then [7, 14, 15, 16, 18, 20, 24, 26, 29, 30, 32, 34, 55, 56, 57, 58, 59, 60, 62, 63, 65, 66]
-  else [7, 13, 14, 15, 16, 18, 20, 21, 24, 26, 27, 28, 29, 30, 31, 32, 33, 34, 55, 56, 57, 58, 59, 60, 62, 63, 65, 66]
-
-theorem clean_collector_checked : cleanCollector.all (cleanIdx colFmts) = true := by decide +kernel
-theorem clean_lql_checked : cleanLql.all (cleanIdx lqlFmts) = true := by decide +kernel
-
-/-- the two index lists partition each format list, and the second is exactly where the checker does not succeed -/
-theorem clean_lists_partition :
-    (cleanCollector ++ unclearCollector).length = colFmts.length ∧ (cleanLql ++ unclearLql).length = lqlFmts.length ∧
-    (List.range 59).all (fun k => cleanCollector.contains k != unclearCollector.contains k) = true ∧
-    (List.range 68).all (fun k => cleanLql.contains k != unclearLql.contains k) = true := by decide +kernel
-
-theorem unclear_not_clean : unclearCollector.all (fun k => !cleanIdx colFmts k) = true ∧
-    unclearLql.all (fun k => !cleanIdx lqlFmts k) = true := by decide +kernel
-
-/-- before the repair every recorded shadowing class (known_findings.d/C20.json: 17 collector + 17 LQL classes over these 11
-formats) is among the unclear ones — none of the formats proved correct is a recorded deviation; with the repair there is
-no recorded class -/
-theorem recorded_classes_unclear : (C20.regexpLeftGuard || [16, 20, 21, 27, 28, 29, 30, 31, 32, 33, 34].all
-    (fun k => unclearCollector.contains k && unclearLql.contains k)) = true := by decide +kernel
-
-/-- **no shadowing among the heads of the families, on the repaired tree**: with F19s every format that used to be claimed by
-an earlier, unrelated format — `D/M/YYYY hh:mm:ss P` (now 12), `D/M/YYYY hh:mm P` (17), `YYYY/MM/DD HH:mm:ss.SSS` (27),
-`YYYY/MM/DD HH:mm:ss` (28), `YYYY/MM/DD HH:mm` (31), `YYYY/MM/DD` (33) — is in the clean list of both tables, i.e. proved
-correct for every instant by `C20_collector` / `C20_lql`; their digit-width twins are claimed by those heads with the same
-fields (tested). A table edit that re-introduces such a shadow removes the index from the checked list and breaks
-`clean_collector_checked` / this obligation. -/
-theorem no_shadowing_heads : (!C20.regexpLeftGuard || [12, 17, 27, 28, 31, 33].all
-    (fun k => cleanCollector.contains k && cleanLql.contains k)) = true := by decide +kernel
-
-/-- the clean formats all carry a year or are time-only, and their texts are safe LQL literals (no blank at either end, no
-leading `-`, a digit inside) -/
-theorem clean_side_conditions :
-    cleanCollector.all (fun k => match colFmts[k]? with | some ck => ck.noDate || ck.hasYear | none => false) = true ∧
-    cleanLql.all (fun k => match lqlFmts[k]? with
-      | some ck => (ck.noDate || ck.hasYear) && (symLayout ck.layout).all lqlShapeOK | none => false) = true := by
-  decide +kernel
-
-/-- the instant a claimed text denotes after `Format.Parse`'s defaulting: today for a time-only format -/
-def adjC (adj : Adjust) (cf : CFormat) (now : Now) (c : Civil) : Civil :=
-  if cf.noDate then (if adj.date then adjustDate now c else c) else c
-
-theorem adjustRes_ok {adj : Adjust} {cf : CFormat} {now : Now} {c : Civil} (h : (cf.noDate || cf.hasYear) = true) :
-    adjustRes adj cf now c = .ok (adjC adj cf now c) := by
-  simp only [adjustRes, adjC]
-  cases hn : cf.noDate with
-  | true => simp; split <;> rfl
-  | false =>
-    rw [hn] at h
-    have : cf.hasYear = true := by simpa using h
-    simp [this]
-
-theorem cleanIdx_some {fmts : List CFormat} {k : Nat} (h : cleanIdx fmts k = true) : ∃ ck, fmts[k]? = some ck := by
-  simp only [cleanIdx] at h
-  cases hk : fmts[k]? with
-  | none => rw [hk] at h; cases h
-  | some ck => exact ⟨ck, rfl⟩
-
-/-! ## (4): the headline -/
-
-/-- **C20 for the collector list.** For every format index in `cleanCollector` (43 of 59 with the repair F19s, 37 before) and EVERY valid instant: the
-default parser, given the text of the instant in that format alone, answers with that very format and the fields the
-format carries (UTC without a zone; today's date for a time-only format). No sweep, no sample: all instants. -/
-theorem C20_collector (k : Nat) (hk : k ∈ cleanCollector) (i : XInst) (hi : ValidX i) (now : Now) :
-    ∃ ck txt c, colFmts[k]? = some ck ∧ renderLayout ck.layout i = some txt ∧ projectX ck.layout i = .ok c ∧
-      parseFirst gadj colFmts now txt = .ok k (adjC gadj ck now c) := by
-  have hclean := List.all_eq_true.mp clean_collector_checked k hk
-  obtain ⟨ck, hck⟩ := cleanIdx_some hclean
-  have hmem : ck ∈ allFmts := List.mem_append_left _ (List.mem_of_getElem? hck)
-  have hown := List.all_eq_true.mp all_formats_own_ok ck hmem
-  obtain ⟨txt, c, ht, hc, hpf⟩ := first_match_clean (adj := gadj) (now := now) hck hclean hown i hi
-  have hside := List.all_eq_true.mp clean_side_conditions.1 k hk
-  rw [hck] at hside
-  rw [adjustRes_ok hside] at hpf
-  exact ⟨ck, txt, c, hck, ht, hc, hpf⟩
-
-/-- **C20 for LQL literals.** For every format index in `cleanLql` (46 of 68 with the repair F19s, 40 before) and every valid instant:
-`parseLqlDateTime`, given the text of the instant in that format, answers with that format and the fields it carries. -/
-theorem C20_lql (k : Nat) (hk : k ∈ cleanLql) (i : XInst) (hi : ValidX i) (now : Now) :
-    ∃ ck txt c, lqlFmts[k]? = some ck ∧ renderLayout ck.layout i = some txt ∧ projectX ck.layout i = .ok c ∧
-      parseLql gcfg lqlFmts now txt = .abs k (adjC gadj ck now c) := by
-  have hclean := List.all_eq_true.mp clean_lql_checked k hk
-  obtain ⟨ck, hck⟩ := cleanIdx_some hclean
-  have hmem : ck ∈ allFmts := List.mem_append_right _ (List.mem_of_getElem? hck)
-  have hown := List.all_eq_true.mp all_formats_own_ok ck hmem
-  obtain ⟨txt, c, ht, hc, hpf⟩ := first_match_clean (adj := gadj) (now := now) hck hclean hown i hi
-  have hside := List.all_eq_true.mp clean_side_conditions.2 k hk
-  rw [hck] at hside
+/-- **C20 for LQL literals — every format, every valid instant.** `parseLqlDateTime`, given the text of the instant in
+format `k` of the LQL list as an absolute literal, answers with the fields format `k` carries. -/
+theorem C20_lql (k : Nat) (hk : k < lqlFmts.length) (i : XInst) (hi : ValidX i) (now : Now) :
+    ∃ ck txt c j', lqlFmts[k]? = some ck ∧ renderLayout ck.layout i = some txt ∧ projectX ck.layout i = .ok c ∧ j' ≤ k ∧
+      parseLql gcfg lqlFmts now txt = .abs j' (adjAll gadj ck now c) := by
+  have hck : lqlFmts[k]? = some lqlFmts[k] := List.getElem?_eq_getElem hk
+  have hside := List.all_eq_true.mp lql_formats_own_ok _ (List.getElem_mem hk)
   simp only [Bool.and_eq_true] at hside
-  rw [adjustRes_ok hside.1] at hpf
-  obtain ⟨sh, hsh, hs⟩ := renderLayout_shape ck.layout i hi txt ht
+  obtain ⟨txt, c, j', ht, hc, hj, hpf⟩ := first_match_agree (adj := gadj) (now := now) hck (lql_idx_ok k hk) hside.1 i hi
+  obtain ⟨sh, hsh, hs⟩ := renderLayout_shape lqlFmts[k].layout i hi txt ht
   have hok := List.all_eq_true.mp hside.2 sh hsh
   have hfl : gcfg.fmtLower = false := by decide
-  exact ⟨ck, txt, c, hck, ht, hc, parseLql_of_list gcfg hfl lqlFmts now hs hok hpf⟩
+  exact ⟨_, txt, c, j', hck, ht, hc, hj, parseLql_of_list gcfg hfl lqlFmts now hs hok hpf⟩
 
 /-- what the fields are, on an example (evaluation): `MMM D, YYYY h:mm:ss P` (format 0), 2019-03-11 13:04:05 — the text is
 `Mar 11, 2019 1:04:05 PM` and the projected fields are 13:04:05 on 2019-03-11 in the default zone -/
@@ -188,11 +126,11 @@ example : let i : XInst := { year := 2019, month := 3, day := 11, hour := 13, mi
       some (some [77, 97, 114, 32, 49, 49, 44, 32, 50, 48, 49, 57, 32, 49, 58, 48, 52, 58, 48, 53, 32, 80, 77],
             .ok ⟨2019, 3, 11, 13, 4, 5, 0, .dflt⟩) := by decide +kernel
 
-/-- …and `YYYY-MM-DDTHH:mm:ss.SSSZZZZ` (format 35) with a 6-digit fraction and offset +05:30:
-`2019-03-11T13:04:05.000123+0530` → nanoseconds 123000, zone offset 19800 s -/
 def exInst : XInst :=
   { year := 2019, month := 3, day := 11, hour := 13, min := 4, sec := 5, nsec := 123000, wd := 1, fracDigits := 6, offMin := 330 }
 
+/-- …and `YYYY-MM-DDTHH:mm:ss.SSSZZZZ` (format 35) with a 6-digit fraction and offset +05:30:
+`2019-03-11T13:04:05.000123+0530` → nanoseconds 123000, zone offset 19800 s -/
 example :
     (colFmts[35]?.map (fun cf => (renderLayout cf.layout exInst, projectX cf.layout exInst))) =
       some (some [50, 48, 49, 57, 45, 48, 51, 45, 49, 49, 84, 49, 51, 58, 48, 52, 58, 48, 53, 46, 48, 48, 48, 49, 50, 51, 43, 48, 53, 51, 48],
